@@ -124,6 +124,9 @@ def run(rep: common.Report, tier: str, seed: int):
             else:
                 parts = [(kind, ln, i0, i1)]
             for kd, l, a, b in parts:
+                if b - a > 1500:           # very long blocks are counted, not shipped to the model
+                    hist['skipped_long'] = hist.get('skipped_long', 0) + 1
+                    continue
                 xs = [float(v) for v in wg._x[a:b]]
                 ys = [float(v) for v in wg._y[a:b]]
                 cases.append({'kind': kd, 'len': l, 'f': f, 'rate': rate, 'r': rr, 'n': b - a})
